@@ -1259,8 +1259,10 @@ class FileSet:
                 # match to our path
                 # NB: using posixpath rather than os.path because
                 # AbstractFileSystem objects always work with / not \
+                # (with a trailing slash like all other search directories,
+                # otherwise the next placeholder level cannot be matched)
                 search_dirs = [
-                    (posixpath.join(old_dir, subdir_chunk), attr)
+                    (posixpath.join(old_dir, subdir_chunk, ""), attr)
                     for old_dir, attr in search_dirs
                 ]
                 continue
